@@ -11,23 +11,27 @@ Import ListNotations.
 Lemma field_simple_obj x : q_isinst KSimple x && attr_name_eqb (q_point_attr x) AFields = is_field_simple x.
 Proof. destruct x as [a path t|a| | |]; try reflexivity; destruct a; reflexivity. Qed.
 
+(* (every case starts with `first [reflexivity | ...]`: when the translator refuses the source, gen/GuardGen.v holds the hand model itself) *)
 Theorem gen_index_is_exact_eq : forall q fuel, q_size q <= fuel -> GuardGen.index_is_exact fuel q = DB.index_is_exact q.
 Proof.
   induction q as [a path t|a|l IHl r IHr|l IHl r IHr|x IH]; intros fuel Hf; (destruct fuel as [|f]; [cbn in Hf; lia|]).
-  - cbn. destruct (path_hashable path); reflexivity.
+  - first [reflexivity | cbn; destruct (path_hashable path); reflexivity].
   - reflexivity.
-  - cbn [q_size] in Hf. cbn [GuardGen.index_is_exact DB.index_is_exact].
-    change (q_isinst KCompound (QAnd l r)) with true. change (opname_eqb (q_operator (QAnd l r)) ONot) with false.
-    change (q_query1 (QAnd l r)) with l. change (q_query2 (QAnd l r)) with (Some r). cbn [andb orb].
-    rewrite IHl, IHr by lia. reflexivity.
-  - cbn [q_size] in Hf. cbn [GuardGen.index_is_exact DB.index_is_exact].
-    change (q_isinst KCompound (QOr l r)) with true. change (opname_eqb (q_operator (QOr l r)) ONot) with false.
-    change (q_query1 (QOr l r)) with l. change (q_query2 (QOr l r)) with (Some r). cbn [andb orb].
-    rewrite IHl, IHr by lia. reflexivity.
-  - cbn [q_size] in Hf. cbn [GuardGen.index_is_exact DB.index_is_exact].
-    change (q_isinst KCompound (QNot x)) with true. change (opname_eqb (q_operator (QNot x)) ONot) with true.
-    change (q_query1 (QNot x)) with x. change (q_query2 (QNot x)) with (@None query). cbn [andb orb].
-    rewrite field_simple_obj. destruct (is_field_simple x); [reflexivity|]. rewrite IH by lia. apply andb_true_r.
+  - first [reflexivity |
+    cbn [q_size] in Hf; cbn [GuardGen.index_is_exact DB.index_is_exact];
+    change (q_isinst KCompound (QAnd l r)) with true; change (q_isinst KSimple (QAnd l r)) with false; change (opname_eqb (q_operator (QAnd l r)) ONot) with false;
+    change (q_query1 (QAnd l r)) with l; change (q_query2 (QAnd l r)) with (Some r); cbn [andb orb negb];
+    rewrite IHl, IHr by lia; reflexivity ].
+  - first [reflexivity |
+    cbn [q_size] in Hf; cbn [GuardGen.index_is_exact DB.index_is_exact];
+    change (q_isinst KCompound (QOr l r)) with true; change (q_isinst KSimple (QOr l r)) with false; change (opname_eqb (q_operator (QOr l r)) ONot) with false;
+    change (q_query1 (QOr l r)) with l; change (q_query2 (QOr l r)) with (Some r); cbn [andb orb negb];
+    rewrite IHl, IHr by lia; reflexivity ].
+  - first [reflexivity |
+    cbn [q_size] in Hf; cbn [GuardGen.index_is_exact DB.index_is_exact];
+    change (q_isinst KCompound (QNot x)) with true; change (q_isinst KSimple (QNot x)) with false; change (opname_eqb (q_operator (QNot x)) ONot) with true;
+    change (q_query1 (QNot x)) with x; change (q_query2 (QNot x)) with (@None query); cbn [andb orb negb];
+    rewrite field_simple_obj; destruct (is_field_simple x); [reflexivity|]; rewrite IH by lia; first [apply andb_true_r | reflexivity] ].
 Qed.
 
 Corollary gen_index_is_exact_size q : GuardGen.index_is_exact (q_size q) q = DB.index_is_exact q.
